@@ -8,7 +8,7 @@ notes = {
     'S-C12-r3c4': ' (missed at first; caught since the in-place deliveries exist)',
     'S-C12-r3a1': ' (release configuration only)',
     'S-C12-r2b1': ' - advisory PROTOCOL-NOTE by decision (the sink error is still returned)',
-    'S-C13-r5a2': ' - out of reach (needs a non-human-readable serde format)',
+    'S-C13-r5a2': ' - outside the statement (non-JSON format only); observed by phase B and reported as FORMAT-NOTE (section 7.10)',
     'S-C12-r5b2': ' (long-history pass: ~10^5 versions on one thread; seed dependent at quick size)',
     'S-C12-r5b4': ' - out of reach (thread-exit destructor)',
     'S-C13-r5a1': ' (statistically: a race, seen by the parallel workers; not replayable)',
